@@ -94,6 +94,14 @@ pub fn worker(tier: &str, k: usize, n: usize, ctx: &mut Ctx) {
       tc::all_methods_return(&mut sub, w);
     });
   }
+  {
+    let mut st = Striper::new(k, n);
+    props::for_each_far_replacement_tree(tier, &mut st, &mut |w| {
+      crate::set_current_case(w);
+      sub.states += 1;
+      tc::all_methods_return(&mut sub, w);
+    });
+  }
   let mut st = Striper::new(k, n);
   let mut cnt = 0u64;
   props::for_each_wild_combined(&mut st, &mut |t| {
